@@ -358,11 +358,17 @@ class Shape(Coordinate):
         # desired angle direction?
         point = cast(complex, self.pos + self._radius * np.exp(angle_rad * 1j))
 
-        # Calculates the distance of this point to all vertices and finds
-        # the closest vertices
-        dists = np.abs(self.vertices - point)
-        # Get the two closest vertices from point
-        closest_vertices = self.vertices[np.argsort(dists)[:2]]
+        # Find the two vertices delimiting the side of the shape that is
+        # crossed when we walk from the center in the desired direction.
+        # These are the vertices whose direction (as seen from the center) is
+        # the closest one to the desired direction in each rotation sense
+        # (for a regular polygon they are also the vertices closest to
+        # `point`, but that is not true for a non-square rectangle).
+        vertices = self.vertices
+        rel_angles = np.angle((vertices - self.pos) * np.exp(-1j * angle_rad))
+        idx_ccw = np.argmin(np.where(rel_angles > 0, rel_angles, np.inf))
+        idx_cw = np.argmax(np.where(rel_angles <= 0, rel_angles, -np.inf))
+        closest_vertices = vertices[[idx_ccw, idx_cw]]
 
         # The equation of a straight line is given by "y = ax + b". We have
         # two points in this line (the two closest vertices) and we can use
